@@ -528,6 +528,9 @@ def rule_condition(ctx: Ctx):
         for n in ast.walk(fn):
             if isinstance(n, ast.If) and isinstance(n.test, ast.Compare):
                 t = n.test
+                if len(t.ops) == 1 and isinstance(t.ops[0], (ast.Eq, ast.NotEq)) and isinstance(t.left, ast.Constant) \
+                        and isinstance(t.comparators[0], ast.Name):
+                    t = ast.Compare(left=t.comparators[0], ops=t.ops, comparators=[t.left])   # `1 == outcome`
                 if isinstance(t.left, ast.Name) and t.left.id in mv and len(t.ops) == 1:
                     if isinstance(t.ops[0], ast.Eq) and isinstance(t.comparators[0], ast.Constant) and t.comparators[0].value == 1 and not n.orelse:
                         ctx.ok("sibling.condition", m, n.test)
